@@ -57,20 +57,41 @@ ArgMin(x, S) == CHOOSE i \in S : \A j \in S : Le(x[i], x[j])
 \* the point at abscissa a of the straight line through knots i and j
 Line(x, y, i, j, a) == AddQ(y[i], DivQ(MulQ(SubQ(y[j], y[i]), SubQ(a, x[i])), SubQ(x[j], x[i])))
 
-Interp1(x, y, a, fill) ==
-    IF IsNaN(a) THEN NaNC
+\* the knots <<i, j>> whose chord gives the value at a (i = j: the point sits on knot i), <<>> when there is no value
+Seg(x, y, a, fill) ==
+    IF IsNaN(a) THEN <<>>
     ELSE LET K == Knots(x, y) IN
-    IF Cardinality(K) < 2 THEN NaNC
+    IF Cardinality(K) < 2 THEN <<>>
     ELSE LET B == {i \in K : Le(x[i], a)}            \* knots at or below the point
              A == {i \in K : Le(a, x[i])}            \* knots at or above it
-         IN  IF B # {} /\ A # {}
-             THEN LET i == ArgMax(x, B)  j == ArgMin(x, A) IN
-                  IF x[i] = x[j] THEN y[i] ELSE Line(x, y, i, j, a)
-             ELSE CASE fill = "nan"   -> NaNC
-                    [] fill = "bound" -> IF B = {} THEN y[ArgMin(x, K)] ELSE y[ArgMax(x, K)]
+         IN  IF B # {} /\ A # {} THEN <<ArgMax(x, B), ArgMin(x, A)>>      \* the neighbouring knots
+             ELSE CASE fill = "nan"   -> <<>>
+                    [] fill = "bound" -> IF B = {} THEN <<ArgMin(x, K), ArgMin(x, K)>> ELSE <<ArgMax(x, K), ArgMax(x, K)>>
                     [] fill = "extrapolate" ->
-                         IF B = {} THEN LET i == ArgMin(x, K)  j == ArgMin(x, K \ {i}) IN Line(x, y, i, j, a)
-                         ELSE LET j == ArgMax(x, K)  i == ArgMax(x, K \ {j}) IN Line(x, y, i, j, a)
+                         IF B = {} THEN LET i == ArgMin(x, K) IN <<i, ArgMin(x, K \ {i})>>
+                         ELSE LET j == ArgMax(x, K) IN <<ArgMax(x, K \ {j}), j>>
+
+Interp1(x, y, a, fill) ==
+    LET s == Seg(x, y, a, fill) IN
+    IF s = <<>> THEN NaNC ELSE IF x[s[1]] = x[s[2]] THEN y[s[1]] ELSE Line(x, y, s[1], s[2], a)
+
+\* ---------------------------------------------------------------------------------------------
+\* Where does binary floating point evaluate the chord without rounding?  (This is about the
+\* binding to the code, not about the law, which is exact everywhere.)  scipy evaluates
+\*     slope * (a - x_i) + y_i                 with slope = (y_j - y_i) / (x_j - x_i)   (nan, bound)
+\*     w * y_j + (1 - w) * y_i                 with w = (a - x_i) / (x_j - x_i)         (extrapolate)
+\* which is exact when all numbers are dyadic rationals of a few bits and the quotient is one too.
+\* Cases outside this domain are not replayed (S2C) and must not be drawn by the driver (C2S).
+\* ---------------------------------------------------------------------------------------------
+RECURSIVE IsPow2(_)
+IsPow2(n) == n = 1 \/ (n > 1 /\ n % 2 = 0 /\ IsPow2(n \div 2))
+Dyadic(c) == IsNaN(c) \/ IsPow2(Dn(c))
+FloatExact1(x, y, a, fill) ==
+    LET s == Seg(x, y, a, fill) IN
+    /\ Dyadic(a) /\ \A i \in 1..Len(x) : Dyadic(x[i]) /\ Dyadic(y[i])
+    /\ (s # <<>> /\ s[1] # s[2]) =>
+          IF fill = "extrapolate" THEN Dyadic(DivQ(SubQ(a, x[s[1]]), SubQ(x[s[2]], x[s[1]])))
+          ELSE Dyadic(DivQ(SubQ(y[s[2]], y[s[1]]), SubQ(x[s[2]], x[s[1]])))
 
 \* ---------------------------------------------------------------------------------------------
 \* mechanism of today's code (for increasing knots): mask the NaN values away, clip the point for
@@ -111,23 +132,23 @@ XRow(x, y, i) == CASE x.k = "v" -> x.v
 \* vector as a list of points for every curve
 PerRow(a, m) == a.k = "v" /\ Len(a.v) = m
 \* rows of values y (m curves) read at a: a vector (one value per curve) or a matrix
-Rows(a, yv, xr(_), fill) ==
+Rows(a, yv, xr(_), F(_, _, _)) ==
     LET m == Len(yv) IN
-    CASE a.k = "c"     -> [shape |-> "v", v |-> [i \in 1..m |-> Interp1(xr(i), yv[i], a.v, fill)]]
-      [] PerRow(a, m)  -> [shape |-> "v", v |-> [i \in 1..m |-> Interp1(xr(i), yv[i], a.v[i], fill)]]
-      [] a.k = "v"     -> [shape |-> "m", v |-> [i \in 1..m |-> [j \in 1..Len(a.v) |-> Interp1(xr(i), yv[i], a.v[j], fill)]]]
-      [] a.k = "m"     -> [shape |-> "m", v |-> [i \in 1..m |-> [j \in 1..Len(a.v[i]) |-> Interp1(xr(i), yv[i], a.v[i][j], fill)]]]
+    CASE a.k = "c"     -> [shape |-> "v", v |-> [i \in 1..m |-> F(xr(i), yv[i], a.v)]]
+      [] PerRow(a, m)  -> [shape |-> "v", v |-> [i \in 1..m |-> F(xr(i), yv[i], a.v[i])]]
+      [] a.k = "v"     -> [shape |-> "m", v |-> [i \in 1..m |-> [j \in 1..Len(a.v) |-> F(xr(i), yv[i], a.v[j])]]]
+      [] a.k = "m"     -> [shape |-> "m", v |-> [i \in 1..m |-> [j \in 1..Len(a.v[i]) |-> F(xr(i), yv[i], a.v[i][j])]]]
 
 AllNaN(n) == [j \in 1..n |-> NaNC]
-Interp(a, y, x, fill) ==
+InterpG(a, y, x, F(_, _, _)) ==
     CASE y.k = "v" ->
-           (CASE a.k = "c" -> C(Interp1(x.v, y.v, a.v, fill))
-              [] a.k = "v" -> V([j \in 1..Len(a.v) |-> Interp1(x.v, y.v, a.v[j], fill)])
-              [] a.k = "m" -> M([i \in 1..Len(a.v) |-> [j \in 1..Len(a.v[i]) |-> Interp1(x.v, y.v, a.v[i][j], fill)]]))
+           (CASE a.k = "c" -> C(F(x.v, y.v, a.v))
+              [] a.k = "v" -> V([j \in 1..Len(a.v) |-> F(x.v, y.v, a.v[j])])
+              [] a.k = "m" -> M([i \in 1..Len(a.v) |-> [j \in 1..Len(a.v[i]) |-> F(x.v, y.v, a.v[i][j])]]))
       [] y.k = "m" ->
-           LET r == Rows(a, y.v, LAMBDA i : XRow(x, y, i), fill) IN IF r.shape = "v" THEN V(r.v) ELSE M(r.v)
+           LET r == Rows(a, y.v, LAMBDA i : XRow(x, y, i), F) IN IF r.shape = "v" THEN V(r.v) ELSE M(r.v)
       [] y.k = "f" /\ a.k \in {"c", "v", "m"} ->           \* plain points: the answer is dated like the values
-           LET r == Rows(a, y.v, LAMBDA i : XRow(x, y, i), fill) IN
+           LET r == Rows(a, y.v, LAMBDA i : XRow(x, y, i), F) IN
            IF r.shape = "v" THEN [k |-> "s", t |-> y.t, v |-> r.v]
            ELSE [k |-> "f", t |-> y.t, c |-> <<>>, v |-> r.v]
       [] y.k = "f" /\ a.k \in {"s", "f"} ->                \* dated points: the answer is dated like the points;
@@ -135,7 +156,20 @@ Interp(a, y, x, fill) ==
                yrow(i) == IF a.t[i] \in TimesOf(y) THEN y.v[PosOf(y, a.t[i])] ELSE AllNaN(Len(XRow(x, y, 1)))
                xr(i) == XRow(x, y, 1)                       \* (dated knots are not combined with dated points here)
            IN  IF a.k = "s"
-               THEN [k |-> "s", t |-> a.t, v |-> [i \in 1..n |-> Interp1(xr(i), yrow(i), a.v[i], fill)]]
+               THEN [k |-> "s", t |-> a.t, v |-> [i \in 1..n |-> F(xr(i), yrow(i), a.v[i])]]
                ELSE [k |-> "f", t |-> a.t, c |-> a.c,
-                     v |-> [i \in 1..n |-> [j \in 1..Len(a.v[i]) |-> Interp1(xr(i), yrow(i), a.v[i][j], fill)]]]
+                     v |-> [i \in 1..n |-> [j \in 1..Len(a.v[i]) |-> F(xr(i), yrow(i), a.v[i][j])]]]
+
+\* named deviation OneColumnFrameIsSeries: a dated frame of points with a single column is read as the dated series
+\* of that column (the library-wide convention of pd2np), so the answer is a series too
+AsPoints(a) == IF a.k = "f" /\ Len(a.c) = 1 THEN [k |-> "s", t |-> a.t, v |-> [i \in 1..Len(a.t) |-> a.v[i][1]]] ELSE a
+Interp(a, y, x, fill) == InterpG(AsPoints(a), y, x, LAMBDA xr, yr, p : Interp1(xr, yr, p, fill))
+
+\* every evaluation of the call lies where floating point is exact (see FloatExact1)
+Yes == Q(1, 1)
+AllYes(o) == CASE o.k = "c" -> o.v = Yes
+               [] o.k \in {"v", "s"} -> \A i \in 1..Len(o.v) : o.v[i] = Yes
+               [] o.k \in {"m", "f"} -> \A i \in 1..Len(o.v) : \A j \in 1..Len(o.v[i]) : o.v[i][j] = Yes
+FloatExact(a, y, x, fill) ==
+    AllYes(InterpG(AsPoints(a), y, x, LAMBDA xr, yr, p : IF FloatExact1(xr, yr, p, fill) THEN Yes ELSE NaNC))
 =============================================================================
